@@ -513,6 +513,22 @@ def apply_faults(world, data, faults, fname):
                 if 0 <= off and off + len(rep) <= ce - he:
                     data = data[:he + off] + rep + \
                         data[he + off + len(rep):]
+        elif kind == 'shorten':
+            # the last n bytes of the content of section i are gone and its
+            # length says so (a producer that wrote a partial final newline)
+            spans = _spans(data)
+            i = int(f['section'])
+            n = int(f.get('n', 1))
+
+            if 0 <= i < len(spans) and n > 0:
+                hs, he, ce = spans[i]
+
+                if ce - he > n:
+                    new = rewrite_header(data[hs:he], b'length',
+                                         str(ce - he - n).encode('ascii'))
+
+                    if new is not None:
+                        data = data[:hs] + new + data[he:ce - n] + data[ce:]
         elif kind == 'empty_content':
             spans = _spans(data)
             i = int(f['section'])
